@@ -479,7 +479,12 @@ def run_cli(wb, sentinel: bool, keep=False):
         try:
             p = subprocess.run(cli_cmd(wb, folder, out), cwd=cwd, env=env, stdout=subprocess.PIPE, stderr=subprocess.PIPE, timeout=300)
         except subprocess.TimeoutExpired:
-            return {"rc": None, "timeout": True, "stderr": "", "log": "", "stdout": "", "out": None, "others": []}
+            # a run takes about a second: 300 s without an answer is either a hang of the command (a violation) or a
+            # machine under extreme load — decide with one generous retry
+            try:
+                p = subprocess.run(cli_cmd(wb, folder, out), cwd=cwd, env=env, stdout=subprocess.PIPE, stderr=subprocess.PIPE, timeout=1500)
+            except subprocess.TimeoutExpired:
+                return {"rc": None, "timeout": True, "stderr": "", "log": "", "stdout": "", "out": None, "others": []}
         log = ""
         lp = os.path.join(cwd, "errors.log")
         if os.path.exists(lp):
